@@ -42,11 +42,13 @@ pub fn oracle_c08(cfg: &EwCfg, tr: &EwTrace) -> Vec<Violation> {
         for d in tr.delivered.iter() { let g = &tr.wire[d.dg]; if g.dst == saddr() && g.src == caddr(i) { if let Some(Frame::HandshakeSynFrame(_)) = g.frame { items.push((d.round, 1, It::Syn)); } } }
         for e in tr.sev[i].iter() { items.push((e.round, 2, It::Ev(e.ev.clone()))); }
         items.sort_by_key(|x| (x.0, x.1));
-        let mut st = St::Idle; let mut syn_since = 0usize; let mut log: Vec<String> = Vec::new();
+        // SYNs delivered and not yet answered by an event, by round of delivery. A terminal event clears the requests of earlier
+        // rounds; a SYN delivered in the same round may have been handled after the frame that ended the connection.
+        let mut st = St::Idle; let mut syns: Vec<usize> = Vec::new(); let mut log: Vec<String> = Vec::new();
         for (round, _, it) in items {
             match it {
-                It::Drop => { log.push(format!("drop()@r{}", round)); if st == St::Conn { st = St::Term; syn_since = 0; } }
-                It::Syn => { syn_since += 1; }
+                It::Drop => { log.push(format!("drop()@r{}", round)); if st == St::Conn { st = St::Term; syns.retain(|r| *r == round); } }
+                It::Syn => { syns.push(round); }
                 It::Ev(ev) => {
                     log.push(format!("{}@r{}", ev_name(&ev), round));
                     let bad = match (&ev, st) {
@@ -55,16 +57,16 @@ pub fn oracle_c08(cfg: &EwCfg, tr: &EwTrace) -> Vec<Violation> {
                         (Ev::Receive(_), St::Term) => Some("Receive after the terminal event"),
                         (Ev::Disconnect, St::Idle) => Some("Disconnect without Connect"),
                         (Ev::Disconnect, St::Term) => Some("Disconnect after the terminal event"),
-                        (Ev::Error(_), St::Term) | (Ev::Error(_), St::Idle) if syn_since == 0 => Some("Error event with no connection or handshake it could belong to"),
+                        (Ev::Error(_), St::Term) | (Ev::Error(_), St::Idle) if syns.is_empty() => Some("Error event with no connection or handshake it could belong to"),
                         _ => None,
                     };
                     if let Some(b) = bad { out.push(viol("C08.server", format!("C08.server:{}", b.replace(' ', "-")), format!("server events for client {} are not well-formed: {}: {:?}", i, b, log))); break; }
                     match ev {
                         Ev::Connect => { st = St::Conn; }
                         Ev::Receive(_) => {}
-                        Ev::Disconnect => { st = St::Term; syn_since = 0; }
+                        Ev::Disconnect => { st = St::Term; syns.retain(|r| *r == round); }
                         // a handshake error answers one connection request; the error that ends a connection ends all earlier requests
-                        Ev::Error(_) => { if st == St::Conn { st = St::Term; syn_since = 0; } else { syn_since = syn_since.saturating_sub(1); } }
+                        Ev::Error(_) => { if st == St::Conn { st = St::Term; syns.retain(|r| *r == round); } else if !syns.is_empty() { syns.remove(0); } }
                     }
                 }
             }
@@ -205,7 +207,8 @@ pub fn oracle_survive(cfg: &EwCfg, tr: &EwTrace, clause: &str) -> Vec<Violation>
                 if only_while_undelivered && all_delivered && e.round > last_delivery_round { continue; }
                 // Why was the peer silent? Look at the peer's sender state over the silent period.
                 let probes: Vec<&uflow::verif::Probe> = tr.obs.iter().filter(|o| o.t_ms + t_cfg >= e.t_ms && o.round < e.round).filter_map(|o| if peer_is_client { o.c_probe[i].as_ref() } else { o.s_probe[i].as_ref() }).collect();
-                let idle = !probes.is_empty() && probes.iter().all(|p| p.pending_len == 0 && p.resend_len == 0 && p.send_queue_len == 0);
+                // (the first tenth of the period is left out: right after its last transmission the peer still waits for that frame's acknowledgement)
+                let idle = !probes.is_empty() && probes[probes.len() / 10..].iter().all(|p| p.pending_len == 0 && p.resend_len == 0 && p.send_queue_len == 0);
                 // the RTO in force during the second half of the silent period decides whether a keepalive was still due in time
                 let rto_min = probes[probes.len() / 2..].iter().map(|p| p.rto_ms.unwrap_or(0)).min().unwrap_or(0);
                 if crate::lwprops::verbose() { for p in probes.iter().step_by(20) { println!("   peer probe: rate {} rto {:?} credit {} pending {} resend {} queue {}", p.send_rate, p.rto_ms, p.flush_alloc, p.pending_len, p.resend_len, p.send_queue_len); } }
@@ -252,11 +255,14 @@ pub fn oracle_c17(cfg: &EwCfg, tr: &EwTrace, expect_readmit: bool) -> Vec<Violat
     let mut out = Vec::new();
     let n = cfg.clients.len();
     // established connections according to the server's own event stream
-    let mut est = vec![false; n];
+    // A connection the server application has asked to close stays established while it flushes and is closing afterwards
+    // (no event marks that moment; the terminal event comes with the peer's acknowledgement or the time-out): from the call
+    // on it is counted only while RemoteClient::is_active() still reports it.
+    let mut est = vec![false; n]; let mut closing_called = vec![false; n];
     for r in 0..tr.rounds {
-        for c in tr.calls.iter().filter(|c| c.round == r) { if let Act::SDrop(k) = c.act { est[k] = false; } }
-        for i in 0..n { for e in tr.sev[i].iter().filter(|e| e.round == r) { match e.ev { Ev::Connect => est[i] = true, Ev::Disconnect | Ev::Error(_) => est[i] = false, _ => {} } } }
-        let active = est.iter().filter(|x| **x).count();
+        for c in tr.calls.iter().filter(|c| c.round == r) { match c.act { Act::SDrop(k) => { est[k] = false; } Act::SDisconnect(k) | Act::SDisconnectNow(k) => { closing_called[k] = true; } _ => {} } }
+        for i in 0..n { for e in tr.sev[i].iter().filter(|e| e.round == r) { match e.ev { Ev::Connect => { est[i] = true; closing_called[i] = false; } Ev::Disconnect | Ev::Error(_) => est[i] = false, _ => {} } } }
+        let active = (0..n).filter(|&i| est[i] && !(closing_called[i] && !tr.obs[r].s_active[i])).count();
         if active > cfg.max_active {
             out.push(viol("C17.active", "C17.active".into(), format!("round {}: the server has {} established connections (Connect reported, no terminal event yet) but max_active_connections is {}", r, active, cfg.max_active)));
             break;
@@ -535,16 +541,60 @@ pub fn oracle_c09(cfg: &EwCfg, tr: &EwTrace) -> Vec<Violation> {
 }
 
 // ------------------------------------------------------------------------------------------------
+// C20 at the API of Client and RemoteClient: send_buffer_size() is 0 unless the connection is established,
+// never exceeds the bytes handed to send() so far, and is 0 again once everything was delivered and the
+// connection has been quiet for a while.
+// ------------------------------------------------------------------------------------------------
+
+pub fn oracle_c20_ew(cfg: &EwCfg, tr: &EwTrace) -> Vec<Violation> {
+    let mut out = Vec::new();
+    for i in 0..cfg.clients.len() {
+        if tr.gens[i] != 1 { continue; }
+        for dir in 0..2usize {
+            let who = if dir == 0 { format!("client {}", i) } else { format!("server (for client {})", i) };
+            let mut submitted = 0usize; let mut last_send_round = 0usize;
+            let mut ci = 0usize;
+            for o in tr.obs.iter() {
+                while ci < tr.calls.len() && tr.calls[ci].round <= o.round {
+                    match tr.calls[ci].act { Act::CSend(k, _, _, s) if k == i && dir == 0 => { submitted += s; last_send_round = tr.calls[ci].round; } Act::SSend(k, _, _, s) if k == i && dir == 1 => { submitted += s; last_send_round = tr.calls[ci].round; } _ => {} }
+                    ci += 1;
+                }
+                let (sbs, active) = if dir == 0 { (o.c_sbs[i], o.c_active[i]) } else { (o.s_sbs[i], o.s_active[i]) };
+                if !active && sbs != 0 { out.push(viol("C20.api", "C20.api:not-active".into(), format!("{}: send_buffer_size() = {} in round {} although the connection is not established", who, sbs, o.round))); break; }
+                if sbs > submitted { out.push(viol("C20.api", "C20.api:high".into(), format!("{}: send_buffer_size() = {} in round {} but only {} bytes have been handed to send()", who, sbs, o.round, submitted))); break; }
+            }
+            // quiet end: the connection is still established on both sides, the last fault and the last send() lie at least 60 rounds
+            // (>= 6 s) back, and every payload this side submitted has reached the peer application
+            if let Some(o) = tr.obs.last() {
+                let (sbs, active, peer_active) = if dir == 0 { (o.c_sbs[i], o.c_active[i], o.s_active[i]) } else { (o.s_sbs[i], o.s_active[i], o.c_active[i]) };
+                let quiet_from = last_send_round.max(tr.last_dev_round) + 60;
+                let disturbed = tr.blackout.is_some() || tr.calls.iter().any(|c| matches!(c.act, Act::CDisconnect(k) | Act::CDisconnectNow(k) | Act::SDisconnect(k) | Act::SDisconnectNow(k) | Act::SDrop(k) | Act::Forget(k) if k == i));
+                let gap = tr.obs.windows(2).map(|w| w[1].t_ms - w[0].t_ms).min().unwrap_or(0);
+                if active && peer_active && !disturbed && o.round >= quiet_from && gap >= 100 && sbs != 0 {
+                    out.push(viol("C20.api", "C20.api:not-zero-when-quiet".into(), format!("{}: send_buffer_size() = {} in round {} although nothing was sent or lost for {} rounds", who, sbs, o.round, o.round - quiet_from + 60)));
+                }
+            }
+        }
+    }
+    out
+}
+
+// ------------------------------------------------------------------------------------------------
 // scenario construction
 // ------------------------------------------------------------------------------------------------
 
 pub const EO_C07: u32 = 1; pub const EO_C08: u32 = 2; pub const EO_C09: u32 = 4; pub const EO_C10: u32 = 8; pub const EO_C17: u32 = 16; pub const EO_C18: u32 = 32;
-pub const EO_ECHO: u32 = 64; pub const EO_READMIT: u32 = 128; pub const EO_KEEPALIVE: u32 = 256; pub const EO_SURVIVE_C02: u32 = 512; pub const EO_SURVIVE_C11: u32 = 1024;
+pub const EO_ECHO: u32 = 64; pub const EO_READMIT: u32 = 128; pub const EO_KEEPALIVE: u32 = 256; pub const EO_SURVIVE_C02: u32 = 512; pub const EO_SURVIVE_C11: u32 = 1024; pub const EO_C20: u32 = 2048;
 
 #[derive(Clone)]
 pub struct EwSpec { pub tag: String, pub cfg: EwCfg, pub script: Arc<Vec<EwOp>>, pub env: EwEnv, pub d: usize, pub oracles: u32, pub n_raw: usize }
 
 pub const EW_WITNESSES: &[&str] = &["client Connect", "server Connect", "Disconnect event", "Error(Timeout)", "handshake error event", "SYN retransmitted", "SYN-ACK retransmitted", "disconnect request retransmitted", "duplicate datagram delivered", "stale datagram delivered (held >= 10 rounds)", "ServerFull refusal", "Receive event", "re-ACK of duplicate SYN-ACK"];
+
+/// Names for a summary: 32 unused slots (link-world witnesses live there), then the endpoint-world witnesses.
+pub fn ew_witness_names() -> Vec<&'static str> { let mut v = vec!["-"; 32]; v.extend_from_slice(EW_WITNESSES); v }
+/// Link-world names followed by the endpoint-world names at bit 32 (for properties that run both worlds).
+pub fn mixed_witness_names() -> Vec<&'static str> { let mut v = crate::lwprops::WITNESSES.to_vec(); while v.len() < 32 { v.push("-"); } v.extend_from_slice(EW_WITNESSES); v }
 
 pub fn ew_witnesses(tr: &EwTrace) -> u64 {
     let mut w = 0u64;
@@ -577,6 +627,7 @@ pub fn eval_ew(spec: &EwSpec, tr: &EwTrace) -> Vec<Violation> {
     if o & EO_C18 != 0 { v.extend(oracle_c18(&spec.cfg, tr, spec.n_raw)); }
     if o & EO_SURVIVE_C02 != 0 { v.extend(oracle_survive(&spec.cfg, tr, "C02.survive")); }
     if o & EO_SURVIVE_C11 != 0 { v.extend(oracle_survive(&spec.cfg, tr, "C11.survive")); }
+    if o & EO_C20 != 0 { v.extend(oracle_c20_ew(&spec.cfg, tr)); }
     // one violation per signature
     let mut out: Vec<Violation> = Vec::new();
     for x in v { if !out.iter().any(|y| y.sig == x.sig) { out.push(x); } }
@@ -593,7 +644,7 @@ pub fn ew_scenario(spec: EwSpec) -> Scenario {
         ExecResult {
             violations, panic: None, outcome: ew_outcome(&tr), states: ew_states(&tr),
             transitions: tr.obs.iter().map(|o| o.s_stepped as u64 + o.c_stepped.iter().filter(|x| **x).count() as u64).sum::<u64>() + tr.delivered.len() as u64,
-            witnesses: ew_witnesses(&tr),
+            witnesses: ew_witnesses(&tr) << 32,
             sample: if ch.taken.iter().any(|&c| c != 0) && ch.taken.len() % 5 == 2 { Some(format!("cfg={} script={} choices={:?} rounds={} datagrams={} events={}", spec.cfg.name(), script_name(&spec.script), ch.taken, tr.rounds, tr.wire.len(), tr.cev.iter().chain(tr.sev.iter()).map(|v| v.len()).sum::<usize>())) } else { None },
         }
     };
